@@ -883,10 +883,14 @@ func (w *World) codecSymmetric(r *Report, rule, pkgRel, typ, enc, dec string, fi
 		return
 	}
 	reads := fieldsSelectedIn(einfo, efd.Body, n)
+	// the wire form may be built / consumed by helpers of the type
+	w.addHelperFieldReads(w.Method(pkgRel, typ, enc), n, reads)
 	stores := map[string]bool{}
-	for _, fs := range w.fieldStores(df) {
-		if fs.Owner != nil && fs.Owner.Obj() == n.Obj() {
-			stores[fs.Field.Name()] = true
+	for _, g := range w.withModuleCallees(df, 3) {
+		for _, fs := range w.fieldStores(g) {
+			if fs.Owner != nil && fs.Owner.Obj() == n.Obj() {
+				stores[fs.Field.Name()] = true
+			}
 		}
 	}
 	var miss []string
